@@ -457,9 +457,12 @@ result_t DateTimeDataType::readSymbols(size_t offset, size_t length, const Symbo
           return RESULT_ERR_INVALID_POS;
         }
         // number of minutes since 01.01.2009
-        minutes |= symbol*(1 << (8*i));
+        minutes |= static_cast<unsigned long>(symbol) << (8*i);
         if (i < 3) {
           break;
+        }
+        if (minutes >= 33237UL*24*60) {  // beyond 31.12.2099 23:59 (33237 days since 01.01.2009)
+          return RESULT_ERR_OUT_OF_RANGE;
         }
         int mjd = static_cast<int>(minutes/(24*60)) + 54832;  // 01.01.2009
         int y = static_cast<int>((mjd-15078.2)/365.25);
